@@ -27,7 +27,7 @@ import (
 func init() {
 	register(Property{ID: "C24", Level: "other", Run: runC24,
 		Technique: "static analysis: structural matching of SSA expression trees (sibling agreement of the scaling helpers), interval bounds from constants/static types/call-site summaries at every call site, whole-module scan for unsplit multiply-then-divide",
-		Text: "Decides: (1) every function of the module whose result is built from a multiplication and a division of its integer parameters (the scaling helpers and the two MP4 duration converters) computes exactly (v/d)*m + ((v%d)*m)/d on 64-bit signed integers with only value-preserving conversions, which is trunc(v*m/d) whenever (d-1)*m < 2^63 and the result is representable; (2) at every call site of a helper, directly or through a wrapper parameter, the multiplier and divisor are constants, uint32-typed time scales or clock rates, so that (d-1)*m < 2^63; (3) every other 64-bit multiply-then-divide in the module has a product bounded below 2^63 by constants and static types. Not decided: that divisors are non-zero (crash property), value correctness of the rates passed, float conversions (none exist in the anchored code).",
+		Text: "Decides: (1) every function of the module whose result is built from a multiplication and a division of its integer parameters (the scaling helpers and the two MP4 duration converters) computes exactly (v/d)*m + ((v%d)*m)/d on 64-bit signed integers with only value-preserving conversions, which is trunc(v*m/d) whenever (d-1)*m < 2^63 and the result is representable; (2) at every call site of a helper, directly or through a wrapper parameter, the multiplier and divisor are constants, uint32-typed time scales or clock rates, so that (d-1)*m < 2^63; (2b) no subtraction in the module has two truncated scalings as operands (traced through conversions, phis, locals, wrappers and struct fields whose every store is a scaling): a converted elapsed time is the scaling of the tick difference, not the difference of two scalings, which can be one unit off; (3) every other 64-bit multiply-then-divide in the module has a product bounded below 2^63 by constants and static types. Not decided: that divisors are non-zero (crash property), value correctness of the rates passed, float conversions (none exist in the anchored code).",
 		Note: "assumption: clock rates / sample rates returned by format.ClockRate() and stored in int-typed *Rate/TimeScale fields are < 2^31 (the remainder product of two non-constant rates needs it); integer semantics of Go (truncated division)"})
 	addMutants(
 		Mutant{"C24", "stream-helper-unsplit", "internal/stream/stream_format.go",
@@ -66,6 +66,7 @@ func runC24(c *Ctx) {
 	}
 	c.Explain = "C24.helper.form: every candidate scaling function (integer parameters, integer result computed with both * and /) is exactly the split form on 64-bit signed integers; C24.helper.present: the helpers named by the property exist in the anchored packages. " +
 		"C24.site.no_overflow: per call site (d-1)*m < 2^63 from interval bounds (constants, static types, ClockRate()/rate fields under the stated assumption, parameters summarised over all callers, captured variables over all stores). " +
+		"C24.difference.scaled_once: per helper call site, its truncated result is never one operand of a subtraction whose other operand is also a truncated scaling (origin tracing through fields by who-may-store); scalings by an integral constant ratio are exempt. " +
 		"C24.unsplit: every other 64-bit (a*b)/c in the module has a*b bounded below 2^63. NOT decided: non-zero divisors, semantic choice of rates, float conversions."
 	c.Assume = []string{"clock/sample rates (format.ClockRate(), int-typed ClockRate/SampleRate/TimeScale fields) are < 2^31",
 		"Go integer division truncates toward zero; m, d > 0"}
@@ -134,6 +135,9 @@ func runC24(c *Ctx) {
 		}
 	}
 	c.Floor("C24.site.no_overflow", nsites, 40)
+
+	// ---- (2b) an elapsed time is scaled once (prop_r3_c24.go)
+	c24DifferencesR3(c, p, helpers)
 
 	// ---- (3) unsplit multiply-then-divide anywhere else
 	nun := 0
